@@ -100,6 +100,11 @@ CHECKS = {
    text="Every sequence of 3 inputs (thorough: + 20000 of length 4) over all 14 control packet types, MALFORMED and EOF before CONNECT, plus about 1000 byte-level mutations (truncation at every offset with EOF, first-byte values, remaining-length edge values up to 268435455 and 5-byte lengths, inner length prefixes, QoS 3, empty lists, identifier 0, seeded random bytes) each alone before and after a valid CONNECT: the broker process must survive (a panic kills the child process and is reported with the stream), only the offender's session may end, the witness pair's QoS 1 round trip must succeed after every stream, nothing may stall.",
    note="Trusts TLC, the Json module, the harness. Which bytes realise 'malformed' is outside TLA+. Quick samples 3200 of the streams (seeded).",
    design="5 C18, 8"),
+ "C20": dict(
+   technique="Recorded concurrent histories of the real shared objects checked for linearizability by TLC against the sequential TLA+ specifications (Lin.tla over IdPool, AckQueue, a registry map, TopicStore); whole-broker stress checked by TLC against StressTrace.tla; everything runs under the Go race detector",
+   text="Sampled, not enumerated: 224 (thorough 2400) seeded concurrent histories of 4-8 goroutines on the identifier pool, the in-flight table, the local registry and both tries (linearizability decided by TLC), concurrent writers on two replicated-state nodes with gossip and full-state pushes (must list the same after a full exchange), the expiration list (every timeout fires once), and whole-broker stress runs (about 1000 connections with re-used client ids, 2600 publishes at QoS 0/1/2 in 4 s; thorough 6 x 30 s) whose post-stress obligations (acknowledged publishes reached every stable subscriber; listings, registries and identifier pool clean) are checked by TLC. A race report whose racing access lies in the repository is a violation.",
+   note="Trusts TLC, the Json module, the Go race detector. Schedules are whatever the Go scheduler produced. The whole-broker stress uses an in-memory message log (the commitlog dependency has races of its own). Lin.tla documents three tolerated non-atomicities (two-step Insert, element-wise sweep, key-only timeout entries).",
+   design="5 C20, 4.9"),
 }
 
 def main():
